@@ -1,1 +1,3 @@
 import MirGen.Tables
+import MirGen.Signatures
+import MirGen.EvalPrograms
